@@ -8,13 +8,29 @@ import oscgen as G
 import jetgen as J
 
 ID = "C06"
-GEN = ["gen_particle_tables"]
+GEN = ["gen_particle_tables", "gen_formats"]
 ALLOWED_AXIOMS = []
-TRUSTED = ["(interim) property oracle on the real writers/readers; the writer model and its theorems are being added"]
-ASSUMPTIONS = []
-LEVEL_TEXT = "interim: round-trip oracle on the real code over documents x selections x filter histories; theorems in preparation"
-LEVEL_NOTE = "interim"
-TECHNIQUE = "Coq proof on a writer model composed with the C01 loader theorem (in preparation); round-trip oracle"
+TRUSTED = [
+    "Coq 8.16.1 kernel + vm_compute; every theorem closed under the global context",
+    "translators gen_formats (the writers' printf format strings / per-column format table) and gen_particle_tables (the loader's column tables)",
+    "hand model coq/Model/Writer.v of Oscar.print_particle_lists_to_file, Oscar._particle_as_list, the count-driven particle_list() and "
+    "Jetscape.print_particle_lists_to_file, tied by this run's correspondence: the model must write, token for token, the file the real writer wrote",
+    "the loader model of C01 (reader side)",
+    "oracle laws (hypotheses of the theorems): Python % formatting prints numeric text that float()/int() parse back to the value rounded to the "
+    "printed precision, and printing that value again gives the same text; str(int) prints a decimal int() reads back",
+]
+ASSUMPTIONS = ["the sign of zero is not modelled (-0 is compared as 0 in the writer correspondence)",
+               "per-format row round trip proved for Oscar2013 and 22-column Extended; hypothesis row_rt for 20/21-column Extended and ASCII; JETSCAPE writer by correspondence + oracle only",
+               "states are taken as they are held: after an event-removing filter the footers are those of the renumbered labels (open finding C06-footers-after-event-removal)"]
+LEVEL_TEXT = ("Theorems (Coq): for every held state satisfying the storer invariant the writer model writes the rendering of a document whose events are the "
+              "held events numbered from 0, each with its own end line; by C01 that document reads back to the held data rounded to the printed precision "
+              "with the same counts; re-writing the re-read object gives the same file (fixpoint); one particle line round-trips column by column for any "
+              "column scheme whose writer columns/formats agree with the loader tables, instantiated (no hypothesis left) for Oscar2013 and Extended/22. "
+              "The writer models (Oscar and JETSCAPE) are compared token for token with the files the real writers produce, and a round-trip oracle runs "
+              "load -> filters -> write -> read -> write on the real code for every case.")
+LEVEL_NOTE = ("Partial: row_rt is a hypothesis for 20/21-column Extended and ASCII; no theorem for the JETSCAPE writer; oracle laws for % formatting assumed "
+              "(exercised on every value of every case); one open finding (footers after event-removing filters).")
+TECHNIQUE = "Coq proof: writer model = render of a document, composed with the C01 loader theorem; generic row round trip from regenerated tables; token-exact writer correspondence"
 
 # filter histories applied before writing: (method name, args, removes_events)
 MENU = [("charged_particles", [], False), ("uncharged_particles", [], False),
@@ -175,6 +191,91 @@ def oracle(case):
                 pass
 
 
+PRELUDE = """From Coq Require Import List String ZArith QArith.
+From SX Require Import Lib.Strs Gen.GenParticleMap Gen.GenFormats Model.Oscar Model.Writer.
+Import ListNotations.
+Local Open Scope string_scope.
+"""
+
+
+def write_case(case):
+    """state of the real object right before writing + the file it writes, as a Coq check_write / check_jwrite term"""
+    tmp = os.path.join(C.VERIF, ".work")
+    f1 = os.path.join(tmp, f"c06_m_{os.getpid()}" + (".dat" if case["kind"] == "jet" else ".oscar"))
+    src = None
+    try:
+        with warnings.catch_warnings():
+            warnings.simplefilter("ignore")
+            o, src = _open(case, tmp=tmp)
+            try:
+                o = apply_hist(o, case["hist"])
+            except Exception:
+                return None
+            evs = o.particle_objects_list()
+            if o.num_events() == 0:
+                evs_c = "[]"
+            else:
+                evs_c = coq_list([coq_list([coq_list([G.coq_slot(x) for x in p.data_.tolist()]) for p in e]) for e in evs])
+            cnt = np.asarray(o.num_output_per_event())
+            cnt_c = coq_list([f"({z(a)}, {z(b)})%Z" for a, b in cnt.tolist()]) if cnt.ndim == 2 else "[]"
+            try:
+                o.print_particle_lists_to_file(f1)
+                text = open(f1).read()
+            except Exception:
+                text = None
+            if text is not None:
+                # the sign of zero is not modelled (a value is the rational it denotes): compare "-0" as "0"
+                text = "\n".join(" ".join("0" if t == "-0" else t for t in l.split(" ")) for l in text.split("\n"))
+            vals = set()
+            ints = set(range(0, 12))
+            for e in evs:
+                for p in e:
+                    for x in p.data_.tolist():
+                        if not math.isnan(x):
+                            vals.add(x)
+            for a, b in (cnt.tolist() if cnt.ndim == 2 else []):
+                ints.add(int(b))
+            ft = []
+            vals = {0.0 if v == 0 else v for v in vals}
+            for v in sorted(vals):
+                ft.append(f"(FG, {q(v)}, {coq_str('%g' % v)})")
+                ft.append(f"(FG9, {q(v)}, {coq_str('%.9g' % v)})")
+                ft.append(f"(FD, {q(v)}, {coq_str('%d' % v)})")
+            dt = [f"({z(i)}%Z, {coq_str(str(i))})" for i in sorted(ints)]
+            if case["kind"] == "jet":
+                srclines = open(src).read().split("\n")
+                st = (f"{{| js_events := {evs_c}; js_nevents := {z(o.num_events())}%Z; js_counts := {cnt_c}; "
+                      f"js_defstr := {coq_str(o.particle_type_defining_string_)}; "
+                      f"js_header := {coq_list([coq_str(t) for t in J.tokens_of(srclines[0])])}; "
+                      f"js_last := {coq_list([coq_str(t) for t in J.tokens_of(o.last_line_)])} |}}")
+                if text is None:
+                    w = "None"
+                else:
+                    ls = text.split("\n")
+                    ls = ls[:-1] if ls and ls[-1] == "" else ls
+                    w = "(Some " + J.coq_file(ls) + ")"
+                return f"(check_jwrite (qstable {coq_list(ft)}) (zstable {coq_list(dt)}) {st} {w})"
+            srclines = open(src).read().split("\n")
+            foot = coq_list([coq_list([coq_str(t) for t in l.replace("\n", "").split(" ")]) for l in o.event_end_lines_])
+            st = (f"{{| os_events := {evs_c}; os_nevents := {z(o.num_events())}%Z; os_counts := {cnt_c}; "
+                  f"os_format := {coq_str(o.oscar_format_)}; os_attrs := {coq_list([coq_str(a) for a in o.custom_attr_list])}; "
+                  f"os_footers := {foot}; os_header := {G.coq_file(srclines[:3])} |}}")
+            if text is None:
+                w = "None"
+            else:
+                ls = text.split("\n")
+                ls = ls[:-1] if ls and ls[-1] == "" else ls
+                w = "(Some " + G.coq_file(ls) + ")"
+            return f"(check_write (qstable {coq_list(ft)}) (zstable {coq_list(dt)}) {st} {w})"
+    finally:
+        for p in (f1, src):
+            try:
+                if p:
+                    os.remove(p)
+            except OSError:
+                pass
+
+
 def classify(case, msg):
     if "after an event-removing filter" in msg:
         return "C06-footers-after-event-removal"
@@ -194,6 +295,31 @@ def correspondence(ctx, model_ok=True):
             keys.add(json.dumps(c, sort_keys=True))
         if msg:
             out["failures"].append(Failure(c, "property oracle", on_impl=msg, key=classify(c, msg)))
+    # writer model against the files the real writers produce
+    terms, tcases = [], []
+    for c in cases:
+        t = write_case(c)
+        if t is not None:
+            terms.append(t); tcases.append(c)
+    ok, log = C.make(["Model/Writer.vo"])
+    if not ok:
+        out["broken"].append({"what": "Model/Writer.v does not build", "detail": log[-800:]})
+    else:
+        shard = 40
+        files = [(f"c06_{i//shard}", PRELUDE + f"Eval vm_compute in {coq_list(terms[i:i+shard])}.\n") for i in range(0, len(terms), shard)]
+        res = C.coq_eval_many(ctx, files)
+        codes = []
+        for (ok2, o2), (name, _) in zip(res, files):
+            if not ok2:
+                out["broken"].append({"what": f"cases file {name} failed", "detail": o2[-1500:]})
+                break
+            codes += C.parse_codes(o2)
+        else:
+            out["traces_validated_against_impl"] = sum(1 for x in codes if x == 0)
+            dist["writer_model_codes"] = dict(Counter(codes))
+            for c, code in zip(tcases, codes):
+                if code != 0:
+                    out["failures"].append(Failure(c, f"writer model and written file disagree (code {code})"))
     out["distinct_nontrivial"] = len(keys)
     out["distribution"] = {str(k): v for k, v in dist.items()}
     out["samples"] = [{"kind": c["kind"], "sel": c["sel"], "hist": c["hist"]} for c in cases[:4]]
